@@ -99,6 +99,20 @@ META = {
                      "samples do)"],
         exhaustive={"quick": True, "thorough": True},
     ),
+    "C05": dict(
+        rule="TCC prepare inside a real global transaction with parameter structs of several shapes (unexported fields, "
+             "'-' and empty tags, duplicate tags, contained action context by pointer / nil pointer / value, nested "
+             "structs, pointer fields incl. nil, reflect.StructOf-generated structs of random field types passed by "
+             "value and by pointer) x registration outcome (ok / refused / transport error); then 0-4 coordinator "
+             "commit/rollback requests replaying the registered application data, empty, key-less or malformed data, "
+             "unknown and other resources, user method failing or not. Observed: BranchRegister (order vs try, "
+             "resource, tagged parameters), arguments seen by the user methods, response frames. non-trivial = "
+             "some tagged parameter or some request",
+        trusted=["fakecoord; JSON round trip of application data (encoding/json) by contract; a panic inside OnMessage "
+                 "is recovered by the delivering goroutine as dubbo-getty's task-pool worker does"],
+        assumptions=["when the user method returns an error the manager's error makes the processor send no response "
+                     "(the coordinator retries): 'never committed/rollbacked on failure' is what is checked"],
+    ),
 }
 
 def _member(impl, model):
